@@ -12,6 +12,7 @@ import decimal
 from hypothesis import strategies as st
 
 from vlib import codecs_, refcodec
+from vlib.strat import uniform
 
 EDGE_BITS = [2, 3, 8, 9, 16, 17, 32, 33, 48, 55, 63, 64, 65, 66, 72, 73, 96, 97, 120, 126, 127]
 DATE_FORMATS = {'%y%m%d': 6, '%y%m%d%H%M%S': 12, '%Y%m%d': 8, '%Y%m%d%H%M%S': 14, '%y%m': 4, '%m%d%y': 6}
@@ -50,18 +51,18 @@ def full_config():
 
 def field_config(kind, draw):
     if kind == 'fixed_text':
-        return {'field_type': 'FIXED', 'field_length': draw(st.one_of(st.integers(1, 12), st.integers(1, 40)))}
+        return {'field_type': 'FIXED', 'field_length': draw(st.one_of(uniform(1, 12), uniform(1, 40)))}
     if kind == 'llvar_text':
         return {'field_type': 'LLVAR', 'field_length': 0}
     if kind == 'lllvar_text':
         return {'field_type': 'LLLVAR', 'field_length': 0}
     if kind in ('fixed_int', 'fixed_long'):
-        return {'field_type': 'FIXED', 'field_length': draw(st.integers(1, 18)),
+        return {'field_type': 'FIXED', 'field_length': draw(uniform(1, 18)),
                 'field_python_type': 'int' if kind == 'fixed_int' else 'long'}
     if kind == 'llvar_int':
         return {'field_type': 'LLVAR', 'field_length': 0, 'field_python_type': 'int'}
     if kind == 'fixed_decimal':
-        return {'field_type': 'FIXED', 'field_length': draw(st.integers(3, 20)), 'field_python_type': 'decimal'}
+        return {'field_type': 'FIXED', 'field_length': draw(uniform(3, 20)), 'field_python_type': 'decimal'}
     if kind == 'fixed_datetime':
         fmt = draw(st.sampled_from(sorted(DATE_FORMATS)))
         return {'field_type': 'FIXED', 'field_length': DATE_FORMATS[fmt], 'field_python_type': 'datetime',
@@ -85,7 +86,7 @@ def field_config(kind, draw):
 
 @st.composite
 def configs(draw, max_bits=24, kinds=KINDS):
-    bits = draw(st.lists(st.one_of(st.sampled_from(EDGE_BITS), st.integers(2, 127)), min_size=1, max_size=max_bits,
+    bits = draw(st.lists(st.one_of(st.sampled_from(EDGE_BITS), uniform(2, 127)), min_size=1, max_size=max_bits,
                          unique=True))
     cfg = {}
     have_icc = have_43 = False
@@ -132,7 +133,7 @@ def var_length(maxlen, lo=1):
     else:
         edges = [1, maxlen]
     edges = [e for e in edges if lo <= e <= maxlen] or [lo]
-    return st.one_of(st.sampled_from(edges), st.integers(lo, maxlen), st.integers(lo, min(maxlen, max(lo, 24))))
+    return st.one_of(st.sampled_from(edges), uniform(lo, maxlen), uniform(lo, min(maxlen, max(lo, 24))))
 
 
 def project_datetime(dt, fmt):
@@ -175,8 +176,8 @@ def datetimes_for(draw, fmt):
 
 @st.composite
 def decimals_for(draw, width):
-    frac = draw(st.integers(0, min(6, width - 2)))
-    intd = draw(st.integers(1, width - frac - (1 if frac else 0)))
+    frac = draw(uniform(0, min(6, width - 2)))
+    intd = draw(uniform(1, width - frac - (1 if frac else 0)))
     digits = draw(st.text(alphabet='0123456789', min_size=intd + frac, max_size=intd + frac))
     if frac:
         text = digits[:intd] + '.' + digits[intd:]
@@ -188,8 +189,8 @@ def decimals_for(draw, width):
 @st.composite
 def tlv_data(draw, limit):
     items = draw(st.lists(st.tuples(
-        st.one_of(st.integers(1, 255).filter(lambda b: b not in (0x5f, 0x9f)).map(lambda b: bytes([b])),
-                  st.tuples(st.sampled_from([0x5f, 0x9f]), st.integers(0, 255)).map(bytes)),
+        st.one_of(uniform(1, 255).filter(lambda b: b not in (0x5f, 0x9f)).map(lambda b: bytes([b])),
+                  st.tuples(st.sampled_from([0x5f, 0x9f]), uniform(0, 255)).map(bytes)),
         st.one_of(st.binary(min_size=0, max_size=24),
                   st.tuples(st.binary(min_size=1, max_size=4), st.sampled_from([0, 1, 127, 128, 200, 254, 255])).map(lambda t: (t[0] * 255)[:t[1]]))),
         min_size=1, max_size=8, unique_by=lambda t: t[0]))
@@ -201,7 +202,7 @@ def tlv_data(draw, limit):
         out += piece
     if not out:
         out = b'\x82\x00'[:limit]
-    pad = draw(st.integers(0, 3))
+    pad = draw(uniform(0, 3))
     if pad and len(out) + pad <= limit and draw(st.booleans()):
         out += b'\x00' * pad
     return out
@@ -210,14 +211,14 @@ def tlv_data(draw, limit):
 @st.composite
 def pds_sets(draw, codec, carriers, max_items=12, big=False):
     """dict PDSxxxx -> value sized (by the reference packer) to fit `carriers` carrier elements"""
-    tags = draw(st.lists(st.one_of(st.sampled_from([0, 1, 23, 52, 122, 148, 158, 165, 9999]), st.integers(0, 9999)),
+    tags = draw(st.lists(st.one_of(st.sampled_from([0, 1, 23, 52, 122, 148, 158, 165, 9999]), uniform(0, 9999)),
                          min_size=1, max_size=max_items, unique=True))
     items = []
     for t in tags:
         if big:
-            n = draw(st.one_of(st.sampled_from([0, 1, 7, 8, 100, 485, 490, 495, 985, 990, 991, 992]), st.integers(0, 992)))
+            n = draw(st.one_of(st.sampled_from([0, 1, 7, 8, 100, 485, 490, 495, 985, 990, 991, 992]), uniform(0, 992)))
         else:
-            n = draw(st.one_of(st.sampled_from([0, 1, 3, 7, 25]), st.integers(0, 60)))
+            n = draw(st.one_of(st.sampled_from([0, 1, 3, 7, 25]), uniform(0, 60)))
         items.append((t, draw(tiled_text(codec, n))))
     while len(refcodec.pack_pds(items)) > carriers and items:
         items.pop()
@@ -247,7 +248,7 @@ def value_for(draw, cfg, codec, exact=True, typed_as_str=False):
     proc = cfg.get('field_processor')
     maxlen = {'LLVAR': 99, 'LLLVAR': 999}.get(kind)
     if ptype in ('int', 'long'):
-        w = cfg['field_length'] if kind == 'FIXED' else draw(st.integers(1, 30))
+        w = cfg['field_length'] if kind == 'FIXED' else draw(uniform(1, 30))
         v = draw(st.one_of(st.sampled_from([0, 1, 10 ** w - 1, 10 ** (w - 1)]), st.integers(0, 10 ** w - 1)))
         if typed_as_str and draw(st.booleans()):
             return str(v)
@@ -259,13 +260,13 @@ def value_for(draw, cfg, codec, exact=True, typed_as_str=False):
     if proc == 'ICC':
         return draw(tlv_data(maxlen or cfg['field_length']))
     if proc in ('PAN', 'PAN-PREFIX'):
-        n = draw(st.one_of(st.sampled_from([10, 11, 12, 13, 16, 19, 20, min(40, maxlen), maxlen]), st.integers(10, min(40, maxlen))))
+        n = draw(st.one_of(st.sampled_from([10, 11, 12, 13, 16, 19, 20, min(40, maxlen), maxlen]), uniform(10, min(40, maxlen))))
         return draw(st.text(alphabet='0123456789', min_size=n, max_size=n))
     if proc == 'DE43':
         return draw(de43_text(codec, maxlen))
     if kind == 'FIXED':
         w = cfg['field_length']
-        n = w if exact else draw(st.integers(1, w))
+        n = w if exact else draw(uniform(1, w))
         text = draw(tiled_text(codec, n))
         if not exact and not text.strip(' '):
             pass
@@ -279,7 +280,7 @@ MTI = st.one_of(st.sampled_from(['1144', '1240', '1442', '1644', '1740', '0000',
 
 
 @st.composite
-def messages(draw, config, codec, exact=True, pds_mode='keys', typed_as_str=False, min_elements=0, pds_big=False):
+def messages(draw, config, codec, exact=True, pds_mode='keys', typed_as_str=False, min_elements=0, pds_big=False, rich=False):
     """a well-formed message for `config`.
     pds_mode: 'keys' (PDSxxxx keys, carriers left to the encoder), 'none' (carriers unused), 'raw' handled by callers."""
     bits = sorted(int(b) for b in config)
@@ -294,10 +295,15 @@ def messages(draw, config, codec, exact=True, pds_mode='keys', typed_as_str=Fals
         chosen = draw(st.lists(st.sampled_from(plain), min_size=min_elements, max_size=3, unique=True))
     else:
         chosen = draw(st.lists(st.sampled_from(plain), min_size=min_elements, max_size=len(plain), unique=True))
+    if rich:
+        # parser-heavy shapes on purpose: the ICC / DE43 elements and PDS sub-elements whenever the configuration has them
+        for b in plain:
+            if config[str(b)].get('field_processor') in ('ICC', 'DE43') and b not in chosen and draw(uniform(0, 3)) > 0:
+                chosen.append(b)
     msg = {'MTI': draw(MTI)}
     for b in sorted(chosen):
         msg['DE%d' % b] = draw(value_for(config[str(b)], codec, exact=exact, typed_as_str=typed_as_str))
-    if carriers and pds_mode == 'keys' and draw(st.booleans()):
+    if carriers and pds_mode == 'keys' and (draw(st.booleans()) or (rich and draw(uniform(0, 3)) > 0)):
         msg.update(draw(pds_sets(codec, len(carriers), big=pds_big)))
     return msg
 
